@@ -402,6 +402,54 @@ fn run_ipc(t: &[&str], fails: &mut Vec<(String, String)>) -> String {
     let chunks = split(&data, &sizes);
     let given = ipc_push(&chunks);
     ipc_oracles(&data, &sizes, &given, fails, data.len() <= 1500);
+    // dense targeted partitions: a cut strictly inside a metadata flatbuffer / a body (every k for
+    // short units, a spread of k otherwise) FOLLOWED BY a chunk longer than the whole unit, i.e. the
+    // zero-copy fast path is eligible by size while the scratch buffer is non-empty
+    {
+        let single = ipc_push(&[&data]);
+        let n = data.len();
+        'dense: for e in t[4].split(',').filter(|e| *e != "-") {
+            let f: Vec<usize> = e.split(':').map(|x| x.parse().unwrap()).collect();
+            for (start, len) in [(f[0], f[1]), (f[0] + f[1], f[3])] {
+                if len < 2 || start + 1 >= n {
+                    continue;
+                }
+                let ks: Vec<usize> = if len <= 72 {
+                    (1..len).collect()
+                } else {
+                    let mut v: Vec<usize> = (1..6).chain(len - 5..len).collect();
+                    let step = (len / 40).max(1);
+                    v.extend((6..len - 5).step_by(step));
+                    v
+                };
+                for k in ks {
+                    let c1 = start + k;
+                    if c1 >= n {
+                        break;
+                    }
+                    for m in [len + 1, len + 9, len - k, len - k + 1] {
+                        let c2 = (c1 + m).min(n);
+                        for with_empty in [false, true] {
+                            let mut ch: Vec<&[u8]> = vec![&data[..c1]];
+                            if with_empty {
+                                ch.push(&data[c1..c1]);
+                            }
+                            ch.push(&data[c1..c2]);
+                            ch.push(&data[c2..]);
+                            let o = ipc_push(&ch);
+                            if !same(&o, &single) {
+                                fails.push((
+                                    format!("3-chunk cut@{}+{} (inside unit at {} len {}) {} != single-chunk {}", c1, c2 - c1, start, len, o.short(), single.short()),
+                                    "oracle:chunk-dep".into(),
+                                ));
+                                break 'dense;
+                            }
+                        }
+                    }
+                }
+            }
+        }
+    }
     // structural classification of a push-vs-pull difference (recomputed from the case line, so
     // that replayed lines carry it too): where does the stream end relative to the genuine messages?
     let mut extra = String::new();
@@ -460,6 +508,7 @@ fn gen_ipc(rng: &mut Rng) -> (String, String) {
     let mut boundaries = vec![];
     let mut pending_pos: Vec<usize> = vec![];
     let mut msg_ends: Vec<usize> = vec![];
+    let mut units: Vec<(usize, usize)> = vec![]; // (start, len) of every metadata flatbuffer and body
     let early_eos = if rng.chance(1, 10) { Some(rng.usize(plan.len() + 1)) } else { None };
     for (k, &i) in plan.iter().enumerate() {
         if early_eos == Some(k) {
@@ -476,8 +525,10 @@ fn gen_ipc(rng: &mut Rng) -> (String, String) {
         }
         boundaries.push(out.len());
         table.push(format!("{}:{}:{}:{}:{}", out.len(), p.md.len(), p.kind, p.body.len(), p.rows));
+        units.push((out.len(), p.md.len()));
         out.extend_from_slice(&p.md);
         boundaries.push(out.len());
+        units.push((out.len(), p.body.len()));
         out.extend_from_slice(&p.body);
         if p.body.is_empty() {
             tags.push("empty-body".into());
@@ -527,7 +578,30 @@ fn gen_ipc(rng: &mut Rng) -> (String, String) {
         tags.push("finding:ipc-pull-partial-prefix".into());
     }
     boundaries.retain(|&b| b <= out.len());
-    let (sizes, chname) = gen_chunks(rng, out.len(), &boundaries);
+    let (mut sizes, mut chname) = gen_chunks(rng, out.len(), &boundaries);
+    // a cut strictly inside a metadata flatbuffer or body followed by a chunk longer than that unit
+    if rng.chance(1, 3) && !units.is_empty() {
+        let cand: Vec<(usize, usize)> = units.iter().copied().filter(|&(s, l)| l >= 2 && s + 1 < out.len()).collect();
+        if !cand.is_empty() {
+            let (s0, l) = *rng.pick(&cand);
+            let c1 = (s0 + 1 + rng.usize(l - 1)).min(out.len());
+            let c2 = (c1 + l + 1 + rng.usize(12)).min(out.len());
+            let mut v = vec![];
+            // optionally a few cuts before
+            let pre = if rng.bool() && c1 > 1 { rng.usize(c1) } else { 0 };
+            if pre > 0 {
+                v.push(pre);
+            }
+            v.push(c1 - pre);
+            if rng.chance(1, 4) {
+                v.push(0);
+            }
+            v.push(c2 - c1);
+            v.push(out.len() - c2);
+            sizes = v;
+            chname = "ch:mid-then-long";
+        }
+    }
     tags.push(chname.into());
     if sizes.iter().filter(|&&s| s > 0).count() >= 2 {
         tags.push("nt".into());
@@ -933,15 +1007,8 @@ fn gen_json(rng: &mut Rng) -> (String, String) {
 // ------------------------------------------------------------------------------------------- CSV
 
 fn csv_schema(ncols: usize) -> SchemaRef {
-    let mut f = vec![];
-    for i in 0..ncols {
-        f.push(match i % 3 {
-            0 => Field::new(format!("c{}", i), DataType::Utf8, true),
-            1 => Field::new(format!("c{}", i), DataType::Int64, true),
-            _ => Field::new(format!("c{}", i), DataType::Utf8, true),
-        });
-    }
-    Arc::new(Schema::new(f))
+    // all columns Utf8: type parsing works on complete rows and is not part of the chunking logic
+    Arc::new(Schema::new((0..ncols).map(|i| Field::new(format!("c{}", i), DataType::Utf8, true)).collect::<Vec<_>>()))
 }
 
 fn csv_builder(bs: usize, header: bool, ncols: usize) -> arrow_csv::ReaderBuilder {
@@ -1049,8 +1116,26 @@ fn run_csv(t: &[&str], fails: &mut Vec<(String, String)>) -> String {
             fails.push((format!("{} {} != push {}", name, o.short(), single.short()), "oracle:push-vs-pull".into()));
         }
     }
-    let total: usize = given.rows().iter().sum();
-    format!("rows={} total={} r={}", show_list(&given.rows()), total, given.verdict)
+    // values row-major: hex of each field, `N` for null (the empty string is null by default)
+    let mut vals = vec![];
+    for b in &given.batches {
+        for r in 0..b.num_rows() {
+            for c in 0..b.num_columns() {
+                let col = b.column(c).as_any().downcast_ref::<StringArray>().unwrap();
+                vals.push(if col.is_null(r) { "N".to_string() } else { hex(col.value(r).as_bytes()) });
+            }
+        }
+    }
+    // a chunking whose first chunk holds only part of a UTF-8 BOM: csv-core strips the BOM only
+    // when its first read sees all three bytes
+    if data.starts_with(&[0xef, 0xbb, 0xbf]) {
+        for f in fails.iter_mut() {
+            if f.1.contains("chunk-dep") || f.1.contains("push-vs-pull") {
+                f.1.push_str(" finding:csv-bom-split");
+            }
+        }
+    }
+    format!("rows={} r={} v={}", show_list(&given.rows()), given.verdict, show_list(&vals))
 }
 
 fn gen_csv(rng: &mut Rng) -> (String, String) {
@@ -1063,29 +1148,26 @@ fn gen_csv(rng: &mut Rng) -> (String, String) {
     // real writer for the values, then terminator variants
     let schema = csv_schema(ncols);
     let mut cols: Vec<ArrayRef> = vec![];
-    for i in 0..ncols {
-        if i % 3 == 1 {
-            cols.push(Arc::new(Int64Array::from((0..nrows).map(|_| if rng.chance(1, 5) { None } else { Some(rng.range(-99, 99)) }).collect::<Vec<_>>())));
-        } else {
-            let vals: Vec<Option<String>> = (0..nrows)
-                .map(|_| {
-                    if short {
-                        return Some((*rng.pick(&["a", "", "\"", ",", "\n", "b\r\nc", "é"])).to_string());
-                    }
-                    match rng.below(8) {
-                        0 => None,
-                        1 => Some("has,comma".into()),
-                        2 => Some("has \"quote\"".into()),
-                        3 => Some("line1\nline2".into()),
-                        4 => Some("cr\r\nlf".into()),
-                        5 => Some("".into()),
-                        6 => Some("é€😀".into()),
-                        _ => Some("x".repeat(rng.usize(5))),
-                    }
-                })
-                .collect();
-            cols.push(Arc::new(StringArray::from(vals)));
-        }
+    for _ in 0..ncols {
+        let vals: Vec<Option<String>> = (0..nrows)
+            .map(|_| {
+                if short {
+                    return Some((*rng.pick(&["a", "", "\"", ",", "\n", "b\r\nc", "é", "1"])).to_string());
+                }
+                match rng.below(9) {
+                    0 => None,
+                    1 => Some("has,comma".into()),
+                    2 => Some("has \"quote\"".into()),
+                    3 => Some("line1\nline2".into()),
+                    4 => Some("cr\r\nlf".into()),
+                    5 => Some("".into()),
+                    6 => Some("é€😀".into()),
+                    7 => Some(format!("{}", rng.range(-99, 99))),
+                    _ => Some("x".repeat(rng.usize(5))),
+                }
+            })
+            .collect();
+        cols.push(Arc::new(StringArray::from(vals)));
     }
     let batch = RecordBatch::try_new(schema.clone(), cols).unwrap();
     let mut out = vec![];
@@ -1146,6 +1228,25 @@ fn gen_csv(rng: &mut Rng) -> (String, String) {
         2 => {
             out.extend_from_slice(b"a,b,c,d,e\n");
             tags.push("mut:extra-fields".into());
+        }
+        _ => {}
+    }
+    match rng.below(12) {
+        0 => {
+            let mut o2 = vec![0xef, 0xbb, 0xbf];
+            o2.extend_from_slice(&out);
+            out = o2;
+            tags.push("bom".into());
+        }
+        1 => {
+            // hand-written oddities: quote inside an unquoted field, text after a closing quote,
+            // bare CR terminators, trailing delimiter, unterminated quote
+            let odd: &[&[u8]] = &[b"a\"b,c\n", b"\"a\"b,c\n", b"a,b\rc,d\r", b"a,\n", b"\"a,b", b"\"a\"\"b\",c\r\n", b",\n,", b"\r\n\r\na\n", b"\"\"\n", b"a\xc3,\xa9b\n"];
+            for _ in 0..1 + rng.usize(3) {
+                let k = rng.usize(odd.len());
+                out.extend_from_slice(odd[k]);
+            }
+            tags.push("odd".into());
         }
         _ => {}
     }
